@@ -59,7 +59,7 @@ class Live:
 
     def project(self):
         al = self.alive()
-        downs, ups, nst = [], [], []
+        downs, ups, nst, opq = [], [], [], []
         for i in range(1, len(self.prog) + 1):
             n = self.node(i)
             if n is None:
@@ -70,10 +70,11 @@ class Live:
             nd = dict(self.prog[i - 1]); nd["ups"] = ups[-1]
             try:
                 nst.append(B.project_node(n, nd) if nd["kind"] in ("zip", "combine_latest") else [])
-            except Exception as e:
-                nst.append({"error": repr(e)[:60]})
+            except Exception:
+                nst.append([])       # (private attributes in another shape than the known one: the state is not compared)
+                opq.append(i)
             del n
-        return {"alive": al, "downs": downs, "ups": ups, "nst": nst}
+        return {"alive": al, "downs": downs, "ups": ups, "nst": nst, "opq": opq}
 
 
 def enabled_ops(lv, model):
